@@ -58,12 +58,27 @@ impl Case {
 				end: EndPosition::Custom(PlaybackPosition::Samples(b)),
 			});
 		}
-		StaticSoundData {
-			sample_rate: self.sr_sound,
-			frames: frames.into(),
-			settings: st,
-			slice: self.slice,
+		let mut d = StaticSoundData { sample_rate: self.sr_sound, frames: frames.into(), settings: st, slice: None };
+		// the slice is given in one of the equivalent ways: the field, `.slice(a..b)`, a second `.slice()` replacing an earlier one
+		// (positions always refer to the whole audio data), and - when it ends at the end of the data - the open-ended `a..`
+		if let Some((a, b)) = self.slice {
+			let reg = |a: usize, b: usize| Region { start: PlaybackPosition::Samples(a), end: EndPosition::Custom(PlaybackPosition::Samples(b)) };
+			d = match (a + 3 * b + self.total + self.start) % 4 {
+				_ if b > self.total => {
+					d.slice = Some((a, b));
+					d
+				}
+				0 => {
+					d.slice = Some((a, b));
+					d
+				}
+				1 => d.slice(reg(a, b)),
+				2 => d.slice(reg(a / 2, b / 2 + 1)).slice(reg(a, b)),
+				_ if b == self.total => d.slice(reg(a / 2, b / 2 + 1)).slice(Region { start: PlaybackPosition::Samples(a), end: EndPosition::EndOfAudio }),
+				_ => d.slice(reg(b / 3, b)).slice(reg(a, b)),
+			};
 		}
+		d
 	}
 }
 
